@@ -8,6 +8,7 @@ import Bclv.Proofs.LexRender9
 import Bclv.Proofs.Group9
 import Bclv.Proofs.LexRender10
 import Bclv.Proofs.Leaves1
+import Bclv.Proofs.Leaves2
 import Bclv.Props.C01
 /-!
 # C20 — layout, comments and redundant parentheses never change meaning
@@ -274,6 +275,59 @@ theorem same_rendering_same_expression (f f' : Nat) (p q : PState) (hp : GInv p)
     exact strip_eq_of_shape_ratoms _ _ hsh hr.symm
   refine ⟨he, ?_, hEE.symm⟩
   rw [positions_do_not_reach_code_partial, positions_do_not_reach_code_partial (expr f' q).1, he]
+
+/-! ## redundant parentheses and optional `;`: the same program -/
+
+/-- an accepted text has no failure token -/
+theorem accepted_no_fail (a : Bytes) (hok : (parseTokens (lexWhole a) (newlinesFrom 0 a)).ok = true) :
+    ∀ t ∈ lexWhole a, t.typ ≠ .FAIL := by
+  obtain ⟨body, e, hbe, he, _⟩ := source_sound a hok
+  obtain ⟨pre, e0, htoks, he0, hpre, _⟩ := lexWhole_shape a
+  have hsame : pre = body ∧ e0 = e := by
+    have := htoks.symm.trans hbe
+    have h1 := List.append_inj' this rfl
+    exact ⟨h1.1, by simpa using h1.2⟩
+  obtain ⟨rfl, rfl⟩ := hsame
+  intro t ht
+  rw [htoks] at ht
+  rcases List.mem_append.mp ht with ht | ht
+  · intro h; have := hpre t ht; rw [h] at this; cases this
+  · simp at ht; rw [ht, he]; intro h; cases h
+
+/-- **Layout, the optional `;` and redundant parentheses never change the compiled program.**
+Two accepted source texts whose token kinds read as one common shape (`same_reading_same_shape`:
+what an optional `;` after a statement and parentheses around any sub-expression leave unchanged)
+and whose tokens other than `(`, `)` and `;` are the same, kind and text, in the same order —
+whatever whitespace and comments stand between them — compile to the same instructions and the
+same constants; the program trees differ in the recorded positions only. -/
+theorem same_reading_same_compiled_program (a b : Bytes)
+    (ha : (parseTokens (lexWhole a) (newlinesFrom 0 a)).ok = true)
+    (hb : (parseTokens (lexWhole b) (newlinesFrom 0 b)).ok = true)
+    (ss : ShSs)
+    (hra : ∀ body e, lexWhole a = body ++ [e] → RdProgF ss (typs body) .EOF)
+    (hrb : ∀ body e, lexWhole b = body ++ [e] → RdProgF ss (typs body) .EOF)
+    (hcore : coreOf (lexWhole a) = coreOf (lexWhole b)) :
+    (compileP (parseTokens (lexWhole a) (newlinesFrom 0 a)).prog).map Prod.fst
+      = (compileP (parseTokens (lexWhole b) (newlinesFrom 0 b)).prog).map Prod.fst
+    ∧ (parseTokens (lexWhole a) (newlinesFrom 0 a)).consts = (parseTokens (lexWhole b) (newlinesFrom 0 b)).consts
+    ∧ erP (parseTokens (lexWhole a) (newlinesFrom 0 a)).prog = erP (parseTokens (lexWhole b) (newlinesFrom 0 b)).prog := by
+  have hsh := same_reading_same_shape a b ha hb ss hra hrb
+  obtain ⟨h1, h2, h3⟩ := same_core_same_program (lexWhole a) (lexWhole b) (newlinesFrom 0 a) (newlinesFrom 0 b)
+    (lexWhole_lastEnd a) (lexWhole_lastEnd b) (accepted_no_fail a ha) (accepted_no_fail b hb) ha hb hsh hcore
+  exact ⟨h3, h2, h1⟩
+
+/-- Two such texts: `var x=2 def t{y=x*3}print x` and the same with a comment, other spacing,
+parentheses and semicolons — the same core tokens, both accepted, the same code and constants. -/
+def txtA : Bytes := str "var x=2 def t{y=x*3}print x"
+def txtB : Bytes := str "var x = (2);\n# c\ndef t { y = ((x) * 3); }\nprint (x);"
+
+example : coreOf (lexWhole txtA) = coreOf (lexWhole txtB)
+    ∧ (parseTokens (lexWhole txtA) (newlinesFrom 0 txtA)).ok = true
+    ∧ (parseTokens (lexWhole txtB) (newlinesFrom 0 txtB)).ok = true
+    ∧ (compileP (parseTokens (lexWhole txtA) (newlinesFrom 0 txtA)).prog).map Prod.fst
+        = (compileP (parseTokens (lexWhole txtB) (newlinesFrom 0 txtB)).prog).map Prod.fst
+    ∧ (parseTokens (lexWhole txtA) (newlinesFrom 0 txtA)).consts = (parseTokens (lexWhole txtB) (newlinesFrom 0 txtB)).consts := by
+  decide +kernel
 
 /-- Non-vacuity: `2 + x * 3` and `(2) + ((x) * 3)` with a local `x` — the same operand tokens, and
 the parser returns trees with the same instruction bytes and the same resolved operands. -/
